@@ -164,12 +164,16 @@ def _gen_build(rng, spin_mode, slot):
     if len(terms) >= 2 and rng.random() < 0.5:
         # the sum is multiplied by common factors and handed to the library UNEXPANDED
         fac = []
-        for _ in range(rng.choice([1, 1, 2])):
+        nest = len(terms) >= 3 and rng.random() < 0.4
+        for _ in range(2 if nest else rng.choice([1, 1, 2])):
             a = _gen_atom(rng, avail, spin_mode)
             if a is not None:
                 fac.append(a)
         if fac:
             st["factor"] = fac
+            if nest and len(fac) == 2:
+                # brackets nested two levels deep:  F1 * (t1 + F2 * (t2 + t3 + ...))
+                st["nest"] = 1
     return st
 
 
@@ -305,6 +309,8 @@ def generate(seed, run, tier="quick", overrides=None):
             if k == "rename.permute":
                 st["perms"] = [[rng.randrange(1 << 20), rng.randrange(1 << 20)]
                                for _ in range(rng.choice([1, 2, 2, 3, 4]))]
+                st["pform"] = rng.choice([0, 0, 1, 2, 2])
+                st["rep"] = rng.random() < 0.35
             elif k == "rename.subs":
                 st["map"] = _gen_map(rng)
             elif k == "rename.minimize":
@@ -316,6 +322,8 @@ def generate(seed, run, tier="quick", overrides=None):
                 st["pick"] = rng.randrange(1 << 20)
                 st["perms"] = [[rng.randrange(1 << 20), rng.randrange(1 << 20)]
                                for _ in range(rng.choice([1, 2, 3]))]
+                st["pform"] = rng.choice([0, 0, 1, 2, 2])
+                st["rep"] = rng.random() < 0.35
         elif k == "misc":
             st = rng.choice([{"op": "sympy.clear_cache"},
                              {"op": "dummy.skew", "n": rng.choice([1, 7, 200, 10 ** 5])},
@@ -591,17 +599,23 @@ class C08Session:
     def op_build(self, st):
         from sympy import Rational, S
         expr = S.Zero
+        tlist = []
         for t in st["terms"]:
             term = Rational(*t["pref"])
             for a in t["atoms"]:
                 term *= self.mk_atom(a)
             expr += term
+            tlist.append(term)
         targets = tuple(self.sym(t) for t in st["targets"])
         raw = None
         if st.get("factor") and expr.is_Add:
-            from sympy import Mul
+            from sympy import Mul, Add
             fac = [self.mk_atom(a) for a in st["factor"]]
-            raw = Mul(expr, *fac, evaluate=True)
+            if st.get("nest") and len(fac) >= 2 and len(tlist) >= 3:
+                raw = Mul(fac[0], Add(tlist[0], Mul(fac[1], Add(*tlist[1:]))))
+                self.probes["nested_input"] = self.probes.get("nested_input", 0) + 1
+            else:
+                raw = Mul(expr, *fac, evaluate=True)
             expr = raw
         expr = expr.expand()
         if expr == 0:
@@ -777,8 +791,9 @@ class C08Session:
                 if p is q:
                     q = cl[(cl.index(p) + 1) % len(cl)] if p in cl else cl[0]
             perms.append((p, q))
+        perms = self._repeat_perms(perms, st)
         e = self.make_expr(sl, st.get("route", 0))
-        got = e.permute(*perms).sympy
+        got = e.permute(*self._perm_form(perms, st)).sympy
         want = sl["expr"]
         for p, q in perms:
             want = want.xreplace({p: q, q: p})
@@ -788,6 +803,29 @@ class C08Session:
             self.viol("rename", "b-permute", f"permute{[(str(p), str(q)) for p, q in perms]} "
                       f"of {sl['expr']} gave {got}, sequential transpositions give {want}")
         return {"permute": str(got)}
+
+    def _repeat_perms(self, perms, st):
+        """the same transposition a second time, with others in between"""
+        if st.get("rep") and len(perms) >= 2:
+            perms = perms + [perms[0]]
+            self.probes["permute_repeated"] = self.probes.get("permute_repeated", 0) + 1
+        return perms
+
+    def _perm_form(self, perms, st):
+        """the ways a caller can write the same sequence of transpositions: plain pairs,
+        Permutation objects, a PermutationProduct (which may only move commuting parts)"""
+        form = st.get("pform", 0)
+        if not form:
+            return perms
+        try:
+            from adcgen.symmetry import Permutation, PermutationProduct
+        except ImportError:
+            return perms
+        objs = [Permutation(p, q) for p, q in perms]
+        if form == 1:
+            return objs
+        self.probes["permute_product"] = self.probes.get("permute_product", 0) + 1
+        return list(PermutationProduct(objs))
 
     def make_expr(self, sl, route=0):
         """wrap the slot's expression in an Expr container through one of several
@@ -896,11 +934,12 @@ class C08Session:
                 if p is q:
                     q = cl[(cl.index(p) + 1) % len(cl)]
                 perms.append((p, q))
+            perms = self._repeat_perms(perms, st)
             want = tsym
             for p, q in perms:
                 want = want.xreplace({p: q, q: p})
             for attempt in range(2 + st["pick"] % 2):
-                got = t.permute(*perms)
+                got = t.permute(*self._perm_form(perms, st))
                 gs_ = got.sympy
                 if gs_ != want and not self.same_value_all_indices(gs_, want):
                     self.viol("rename", "b-permute", f"Term.permute"
